@@ -28,9 +28,26 @@ type editCase struct {
 func genEditCase(t *rapid.T) editCase {
 	maxN := sz(8, 16)
 	g := genAnyGraph(t, min(maxN, 7))
+	if rapid.IntRange(0, 5).Draw(t, "large") == 0 {
+		// larger and denser graphs: neighbour lists beyond any small-size fast path (degree >= 17 needs n >= 18)
+		maxN = sz(28, 44)
+		n := rapid.IntRange(10, maxN-2).Draw(t, "ln")
+		g = oracle.New(n)
+		num := rapid.IntRange(3, 8).Draw(t, "ldens")
+		for j := 0; j < n; j++ {
+			for i := 0; i < j; i++ {
+				if rapid.IntRange(0, 7).Draw(t, "le") < num {
+					g.Add(i, j)
+				}
+			}
+		}
+	}
 	c := editCase{Init: specOf(g), Built: rapid.SampledFrom(buildWays).Draw(t, "built"), Spare: rapid.SampledFrom([]int{0, 0, 3, 40}).Draw(t, "spare")}
 	sizes := []int{g.N}
 	nops := rapid.IntRange(1, sz(30, 120)).Draw(t, "nops")
+	if g.N > 9 {
+		nops = rapid.IntRange(1, sz(14, 40)).Draw(t, "nopsl")
+	}
 	for k := 0; k < nops; k++ {
 		slot := rapid.IntRange(0, len(sizes)-1).Draw(t, "slot")
 		n := sizes[slot]
@@ -79,6 +96,28 @@ func genEditCase(t *rapid.T) editCase {
 func genSubsetInAnyOrder(t *rapid.T, n int) []int {
 	if n == 0 {
 		return []int{}
+	}
+	switch rapid.IntRange(0, 7).Draw(t, "special") {
+	case 0: // the identity list
+		id := make([]int, n)
+		for i := range id {
+			id[i] = i
+		}
+		return id
+	case 1: // everything, shuffled
+		return genPerm(t, n, "order")
+	case 2: // all but one or two, ascending
+		var r []int
+		skip := rapid.IntRange(0, n-1).Draw(t, "skip")
+		for i := 0; i < n; i++ {
+			if i != skip {
+				r = append(r, i)
+			}
+		}
+		if r == nil {
+			r = []int{}
+		}
+		return r
 	}
 	p := genPerm(t, n, "order")
 	k := rapid.IntRange(0, n).Draw(t, "k")
@@ -228,6 +267,6 @@ func checkEditCase(c editCase, rec *Rec) error {
 
 func init() {
 	RegisterRapid("C05_edit_history",
-		"rapid: initial graph from the mixed generator (n <= 7), optionally with garbage-filled spare capacity behind every slice; then 1..30 (thorough 120) ops over a pool of up to 6 graphs: AddVertex(neighbours in any order), RemoveVertex(any v), AddEdge/RemoveEdge(i,j incl. i=j, present/absent), Copy, InducedSubgraph(any injective V). Each slot holds a DenseGraph, a SparseGraph and an adjacency-matrix model; after EVERY op EVERY slot is compared (N, M, IsEdge both ways, ascending Neighbours, Degrees), so shared state between a copy/induced subgraph and its source shows up when either is edited. Non-trivial: an edit after removing a non-last vertex of degree >= 1, or an edit of a graph that has been copied / taken an induced subgraph of (or of such a result).",
+		"rapid: initial graph from the mixed generator (n <= 7; one case in six a dense random graph on 10..26 (thorough 42) vertices so that neighbour lists exceed 16 entries), produced by struct literal / NewDense+NewSparse / the decoders / AddVertex from the empty graph, optionally with garbage-filled spare capacity behind every slice; then 1..30 (thorough 120) ops over a pool of up to 6 graphs: AddVertex(neighbours in any order), RemoveVertex(any v), AddEdge/RemoveEdge(i,j incl. i=j, present/absent), Copy, InducedSubgraph(any injective V, with the identity list, full shuffles and all-but-one lists over-represented). Each slot holds a DenseGraph, a SparseGraph and an adjacency-matrix model; after EVERY op EVERY slot is compared (N, M, IsEdge both ways, ascending Neighbours, Degrees), so shared state between a copy/induced subgraph and its source shows up when either is edited. Non-trivial: an edit after removing a non-last vertex of degree >= 1, or an edit of a graph that has been copied / taken an induced subgraph of (or of such a result).",
 		Budget{Checks: 2500, Shards: 1}, Budget{Checks: 100000, Shards: 16}, genEditCase, checkEditCase)
 }
